@@ -518,27 +518,33 @@ Variable tagged : list (Z * ty).
 Hypothesis Hnd : NoDup (map fst tagged).
 Variable fs : list value.
 
-Lemma RT_tags : forall cur pre vpre vcur cnt bt,
+Lemma tag_loop_zero tl fuel ts s :
+  tag_loop c (decode c flex) tl fs fuel 0 ts s = Ok (VStruct fs ts) s.
+Proof. destruct fuel; reflexivity. Qed.
+
+(* the loop over the tag buffer, with [k] more entries still to come after the known ones:
+   the continuation form lets unknown entries follow (Proofs/SchemaUnknownTags.v) *)
+Lemma RT_tags_k : forall cur pre vpre vcur cnt bt,
   tagged = pre ++ cur -> length pre = length vpre ->
   Forall (fun p => is_marker (snd p) = false -> RT (snd p)) cur ->
   Forall (fun p => if is_marker (snd p) then True else (0 <= fst p < ZM31)%Z) cur ->
   wf_tags (wfb flex) cur vcur = true ->
   enc_tags (encode flex) cur vcur = Some (cnt, bt) ->
   bytes_ok bt /\ (2 * N.to_nat cnt <= length bt)%nat /\
-  forall fuel rest extra al, (0 <= extra)%Z -> (lenZ bt + extra < ZM31)%Z ->
+  forall k fuel rest extra al, (0 <= k)%Z -> (0 <= extra)%Z -> (lenZ bt + extra < ZM31)%Z ->
     (al + alloc_tags alloc_of cur vcur <= budget c)%N ->
-    (length bt + 1 <= length fuel)%nat ->
-    tag_loop c (decode c flex) tagged fs fuel (Z.of_N cnt)
+    (N.to_nat cnt <= length fuel)%nat ->
+    tag_loop c (decode c flex) tagged fs fuel (Z.of_N cnt + k)
       (canon_tags canon pre vpre ++ zeros_of cur) (st (bt ++ rest) (lenZ bt + extra) al)
-    = Ok (VStruct fs (canon_tags canon pre vpre ++ canon_tags canon cur vcur))
-         (st rest extra (al + alloc_tags alloc_of cur vcur)).
+    = tag_loop c (decode c flex) tagged fs (skipn (N.to_nat cnt) fuel) k
+        (canon_tags canon pre vpre ++ canon_tags canon cur vcur)
+        (st rest extra (al + alloc_tags alloc_of cur vcur)).
 Proof.
   induction cur as [|[id ft] cur' IH]; intros pre vpre vcur cnt bt Htag Hlen HRT Hids Hwf Henc.
   - destruct vcur; [|discriminate]. cbn [enc_tags] in Henc. injection Henc as <- <-.
     split; [constructor|split; [cbn; lia|]].
-    intros fuel rest extra al He Hs Hb Hf. cbn [zeros_of canon_tags alloc_tags app Z.of_N].
-    destruct fuel; cbn [tag_loop]; change (0 <=? 0)%Z with true; cbv iota;
-      f_equal; unfold lenZ; cbn [length]; finish_state.
+    intros k fuel rest extra al Hk He Hs Hb Hf. cbn [zeros_of canon_tags alloc_tags app Z.of_N N.to_nat skipn].
+    rewrite Z.add_0_l. f_equal. unfold lenZ; cbn [length]; finish_state.
   - destruct vcur as [|fv vr]; [discriminate|].
     cbn [wf_tags] in Hwf. apply andb_true_iff in Hwf as [Hwx Hwr].
     apply Forall_cons_iff in HRT as [HRTx HRTr]. apply Forall_cons_iff in Hids as [Hidx Hidr].
@@ -554,7 +560,7 @@ Proof.
       destruct (IH (pre ++ [(id, TMarker)]) (vpre ++ [VUnit]) vr cnt' br Htag' Hlen' HRTr Hidr Hwr Er)
         as [Hbr [Hlr Hdr]].
       split; [exact Hbr|split; [exact Hlr|]].
-      intros fuel rest extra al He Hs Hb Hf.
+      intros k fuel rest extra al Hk He Hs Hb Hf.
       cbn [zeros_of zero canon_tags canon alloc_tags is_marker] in *.
       rewrite canon_tags_app in Hdr by exact Hlen. cbn [canon_tags canon] in Hdr.
       rewrite <- !app_assoc in Hdr. cbn [app] in Hdr.
@@ -572,12 +578,14 @@ Proof.
       pose proof (put_uvarint_length (N.of_nat (length bx))) as Hl2.
       split; [repeat (apply Forall_app; split); try apply put_uvarint_bytes; assumption|split].
       * rewrite !app_length. lia.
-      * intros fuel rest extra al He Hs Hb Hf.
-        rewrite !lenZ_app in *. rewrite !app_length in Hf.
+      * intros k fuel rest extra al Hk He Hs Hb Hf.
+        rewrite !lenZ_app in *.
         cbn [alloc_tags] in *. rewrite Hm in *.
         destruct fuel as [|f0 fuel']; [cbn [length] in Hf; lia|].
+        replace (N.to_nat (cnt' + 1)) with (S (N.to_nat cnt')) in * by lia.
+        cbn [skipn].
         cbn [tag_loop].
-        destruct (Z.leb_spec (Z.of_N (cnt' + 1)) 0); [lia|].
+        destruct (Z.leb_spec (Z.of_N (cnt' + 1) + k) 0); [lia|].
         rewrite <- !app_assoc.
         unfold lenZ at 1.
         rewrite read_uvarint_put by (try (rewrite Hu64; exact Hidlt); unfold lenZ in *; lia). cbn [bind].
@@ -593,7 +601,7 @@ Proof.
         rewrite Hdx by (unfold lenZ in *; lia). cbn [bind].
         cbn [zeros_of]. rewrite <- (canon_tags_length pre vpre Hlen) at 1.
         rewrite set_nth_app.
-        replace (Z.of_N (cnt' + 1) - 1)%Z with (Z.of_N cnt') by lia.
+        replace (Z.of_N (cnt' + 1) + k - 1)%Z with (Z.of_N cnt' + k)%Z by lia.
         replace (canon_tags canon pre vpre ++ canon ft fv :: zeros_of cur')
           with ((canon_tags canon pre vpre ++ [canon ft fv]) ++ zeros_of cur')
           by (rewrite <- app_assoc; reflexivity).
@@ -603,8 +611,32 @@ Proof.
         rewrite <- Htag.
         rewrite Hdr by (unfold lenZ in *; cbn [length] in *; lia).
         f_equal.
-        -- f_equal. rewrite canon_tags_app by exact Hlen. rewrite <- app_assoc. reflexivity.
+        -- rewrite canon_tags_app by exact Hlen. rewrite <- app_assoc. reflexivity.
         -- finish_state.
+Qed.
+
+Lemma RT_tags : forall cur pre vpre vcur cnt bt,
+  tagged = pre ++ cur -> length pre = length vpre ->
+  Forall (fun p => is_marker (snd p) = false -> RT (snd p)) cur ->
+  Forall (fun p => if is_marker (snd p) then True else (0 <= fst p < ZM31)%Z) cur ->
+  wf_tags (wfb flex) cur vcur = true ->
+  enc_tags (encode flex) cur vcur = Some (cnt, bt) ->
+  bytes_ok bt /\ (2 * N.to_nat cnt <= length bt)%nat /\
+  forall fuel rest extra al, (0 <= extra)%Z -> (lenZ bt + extra < ZM31)%Z ->
+    (al + alloc_tags alloc_of cur vcur <= budget c)%N ->
+    (length bt + 1 <= length fuel)%nat ->
+    tag_loop c (decode c flex) tagged fs fuel (Z.of_N cnt)
+      (canon_tags canon pre vpre ++ zeros_of cur) (st (bt ++ rest) (lenZ bt + extra) al)
+    = Ok (VStruct fs (canon_tags canon pre vpre ++ canon_tags canon cur vcur))
+         (st rest extra (al + alloc_tags alloc_of cur vcur)).
+Proof.
+  intros cur pre vpre vcur cnt bt Htag Hlen HRT Hids Hwf Henc.
+  destruct (RT_tags_k cur pre vpre vcur cnt bt Htag Hlen HRT Hids Hwf Henc) as [Hb [Hl Hd]].
+  split; [exact Hb|split; [exact Hl|]].
+  intros fuel rest extra al He Hs Hbud Hf.
+  replace (Z.of_N cnt) with (Z.of_N cnt + 0)%Z by lia.
+  rewrite Hd by (assumption || lia).
+  apply tag_loop_zero.
 Qed.
 End Tags.
 
